@@ -53,8 +53,10 @@ def signature(case, verdict):
     tier, qle5 (mode buf, inner / outer, no such ring): tier doc = only the documented tolerance e(q) is missed while the bound
               that follows from the fillet step (cos(3 pi / 8q), fillet_step_bound) still holds; tier gross = even that is
               missed; qle5 = quadrant segments <= 5 (where e(q) is smaller than the real chord error)
+    dTiny (mode buf, tier doc): |d| is below 2^-20 of the largest coordinate, where BufferOp's precision ladder is coarser than 1e-6 d
     simpleOpenLines (other modes): false when the input linework is closed or not simple (two segments meet other than
-              consecutive ones at their common vertex, or a point is repeated);  reg: big when |d| exceeds the shortest segment"""
+              consecutive ones at their common vertex, or a point is repeated) or, for single-sided buffers, multi-part;
+              reg: big when |d| exceeds the shortest segment"""
     kv = params_of(case)
     f = fields(verdict)
     mode = kv.get("mode", "buf")
@@ -65,15 +67,25 @@ def signature(case, verdict):
     ring = f.get("closed") == "1" and selfx
     if mode == "buf":
         sig = {"mode": mode, "clause": clause, "selfCrossingRing": ring}
-        if clause in ("inner", "outer") and not ring:
-            sig["tier"] = f.get("tier", "?")
+        if clause in ("inner", "outer"):
             try:
                 q = int(f.get("q", kv.get("q", "8")))
             except ValueError:
                 q = 8
-            sig["qle5"] = q <= 5
+            tier = f.get("tier", "?")
+            if tier == "doc" and q > 5 and f.get("tiny") == "1":
+                # |d| < 2^-20 of the largest coordinate and only the documented tolerance is missed: the precision-reduction
+                # ladder of BufferOp (12 ... 6 significant digits of the coordinate magnitude) is coarser than 1e-6 d
+                return {"mode": mode, "clause": clause, "tier": "doc", "dTiny": True}
+            if not ring:
+                sig["tier"] = tier
+                sig["qle5"] = q <= 5
         return sig
-    if selfx or f.get("closed") == "1":
+    try:
+        parts = int(f.get("parts", "1"))
+    except ValueError:
+        parts = 1
+    if selfx or f.get("closed") == "1" or (mode == "ss" and parts > 1):
         # single-sided buffers / offset curves of linework that is closed or not simple: one class per call
         return {"mode": mode, "simpleOpenLines": False}
     if clause == "side-end":
